@@ -171,6 +171,79 @@ fn reuse_case(st: &mut Stats, seed: u64) {
     }
 }
 
+/// A peer that is not this crate picks its own flow ids (0 included: Bind ids are not kept in the flow table). Whatever the
+/// id, the request is answered exactly once: Finish when the application accepts, Reset when it rejects or just drops it.
+fn raw_bind_case(st: &mut Stats, seed: u64) {
+    use crate::raw::{Got, Raw};
+    use crate::refcodec::RefFrame;
+    st.evaluations += 1;
+    st.engine("SIM", 1);
+    let mut rng = Rng64::new(mix(seed, 0x15B));
+    let cfg = EpCfg { bind_buf: 4, ..EpCfg::default() };
+    let n = rng.range(1, 4) as usize;
+    let reqs: Vec<(u32, u8, usize)> = (0..n).map(|i| {
+        let id = if rng.chance(1, 3) { 0 } else { (rng.next() as u32) | 1 };
+        (id, rng.below(3) as u8, i)
+    }).collect();
+    let sh = sim::Shared::new(mix(seed, 16), rng.below(4) as u8);
+    let reqs2 = reqs.clone();
+    let end = sim::run(&sh, move |sh| async move {
+        let (w0, w1, _net) = crate::memws::pair(&sh, [0, 0], [None, None], true);
+        let e0 = wl::endpoint(&sh, 0, &cfg, w0, seed);
+        let mut raw = Raw::new(w1);
+        let mut answers = Vec::new();
+        for (id, decision, i) in &reqs2 {
+            raw.send(&RefFrame::Bind { id: *id, btype: 1 + (*i as u8 % 2) * 2, port: 700 + *i as u16, host: format!("b{i}").into_bytes() }).await;
+            let seen = match tokio::time::timeout(std::time::Duration::from_millis(5), e0.mux.next_bind_request()).await {
+                Ok(Ok(r)) => {
+                    let ok = r.host() == format!("b{i}").as_bytes();
+                    match decision {
+                        0 => {
+                            r.reply(true).ok();
+                        }
+                        1 => {
+                            r.reply(false).ok();
+                        }
+                        _ => {}
+                    }
+                    drop(r);
+                    ok
+                }
+                _ => false,
+            };
+            let frames = raw.drain().await;
+            answers.push((seen, frames));
+        }
+        sh.api(0, 0, Api::MuxDrop);
+        drop(e0.mux);
+        raw.drain().await;
+        raw.close().await;
+        e0.task.await.ok();
+        answers
+    });
+    let log = sh.take_log();
+    let replay = |extra: String| json!({"kind": "c15-raw-bind", "run_seed": seed, "requests": format!("{reqs:?}"), "observed": extra, "trace_tail": sim::render(&log, 50)});
+    match end {
+        sim::RunEnd::Finished(answers) => {
+            st.target("raw_bind_requests", answers.len() as u64);
+            st.nontrivial(mix(sh.hash(), answers.len() as u64));
+            for ((id, decision, i), (seen, frames)) in reqs.iter().zip(&answers) {
+                let fins = frames.iter().filter(|g| matches!(g, Got::Frame(RefFrame::Finish { id: x }) if x == id)).count();
+                let rsts = frames.iter().filter(|g| matches!(g, Got::Frame(RefFrame::Reset { id: x }) if x == id)).count();
+                let (want_f, want_r) = if *decision == 0 { (1, 0) } else { (0, 1) };
+                let what = ["accepted", "rejected", "dropped without a reply"][*decision as usize];
+                if !*seen {
+                    st.violation(Violation { signature: format!("raw-bind-not-shown|id_zero={}", *id == 0), detail: format!("Bind #{i} with flow id {id:x} was not shown to the application with its host"), replay: replay(format!("{frames:?}")) });
+                } else if fins != want_f || rsts != want_r {
+                    st.violation(Violation { signature: format!("raw-bind-answer|{}|id_zero={}", what.split(' ').next().unwrap_or(""), *id == 0), detail: format!("Bind #{i} with flow id {id:x} was {what} by the application: {fins} Finish / {rsts} Reset frames were sent in answer (expected {want_f} / {want_r})"), replay: replay(format!("{frames:?}")) });
+                }
+            }
+        }
+        sim::RunEnd::Stalled => st.violation(Violation { signature: "stall|raw-bind".into(), detail: "raw Bind requests: the run stalled".into(), replay: replay("stalled".into()) }),
+        sim::RunEnd::Panicked(m) => st.inconclusive.push(format!("harness panic in c15 raw-bind: {m}")),
+    }
+}
+
 /// A bind requested when the connection has just ended, or while it is ending, resolves (Closed or `false`): the slot it
 /// inserted after the task's final clean-up must not wait for an answer that can never come.
 fn after_end_case(st: &mut Stats, seed: u64) {
@@ -253,7 +326,9 @@ pub fn run(p: &Params) -> (Stats, &'static str) {
     let n = p.share(if p.tier_thorough { SPEC.runs_thorough } else { SPEC.runs_quick });
     for i in 0..n {
         let seed = mix(base, i);
-        if i % 8 == 5 {
+        if i % 8 == 1 {
+            raw_bind_case(&mut st, seed);
+        } else if i % 8 == 5 {
             after_end_case(&mut st, seed);
         } else if i % 4 == 3 {
             reuse_case(&mut st, seed);
